@@ -91,6 +91,11 @@ func (u *UniAttribute) Decode(is *codec.Reader) error {
 	if err != nil {
 		return err
 	}
+	// every entry takes at least one byte: a count beyond what is left to read (or a negative
+	// one) is malformed, and must not make the loop below spin over an exhausted input
+	if err = is.CheckLength(length); err != nil {
+		return err
+	}
 
 	for i, e := int32(0), length; i < e; i++ {
 		var k string
